@@ -3,6 +3,13 @@ use tsm_lib::verif_replay as r;
 fn handle(f: &[String]) -> Vec<String> {
     match f[0].as_str() {
         "inflect" => res(r::inflect(&f[1], &f[2], &f[3])),
+        "serde_case" => {
+            let rule = case::RenameRule::from_str(&f[1]).map_err(|_| ()).expect("rule");
+            res(Ok(match f[2].as_str() {
+                "field" => rule.apply_to_field(&f[3]),
+                _ => rule.apply_to_variant(&f[3]),
+            }))
+        }
         "rawname" => res(r::raw_name(&f[1])),
         "fieldname" => res(r::field_name(&f[1], &f[2], &f[3])),
         "variantname" => res(r::variant_name(&f[1], &f[2])),
